@@ -16,10 +16,24 @@ G  Gen_Expr soups: all #expr token sequences up to 3 (quick) / 4 (thorough)
    vectors x page-title classes, network helpers stubbed to "no result".
    An exception escaping expand() is the violation; a different in-band class
    than predicted is drift.
+   Gen_ParserFns_sites: the LANGUAGE CONFIGURATION as a dimension.  The namespace
+   tables the contexts of the working tree hold (quick: en, fr, one more chosen by
+   the seed, and one with namespaces of attested irregular kinds added; thorough:
+   every shipped table) are handed to TLC; ParserFns.tla derives the structure of
+   each table (negative ids, subject namespaces without talk namespace, talk
+   namespaces without subject, talk keys that are not "<key> talk", local names,
+   aliases), enumerates name x namespace of THAT table x spelling (key / local name
+   / alias / lower case / no prefix / unknown prefix) x position (page title / first
+   argument as title / as id / as bare name), and prints the page title, the
+   argument, the predicted class and - beyond the statement - the documented value
+   of the namespace magic words.  An exception escaping expand() is the violation;
+   another value than documented is drift.
 """
 from __future__ import annotations
 
 import json
+import random
+import threading
 from collections import Counter
 from pathlib import Path
 
@@ -43,7 +57,17 @@ ATOM_TEXT = {
 }
 TITLE_TEXT = {"plain": "Test", "talk": "Talk:x", "nstalk": "Template talk:a/b", "user": "User:foo/bar"}
 UNKNOWN_NAMES = ["#nosuchfunction", "#foo bar"]
-SKIP = {"#invoke"}      # dispatched to the Lua sandbox, not to call_parser_function (see C06..C09)
+SKIP = set()            # (#invoke: only the calls that stop before the Lua sandbox, chosen by the model: fewer than 2 arguments)
+TLC_UTF8 = {"JAVA_TOOL_OPTIONS": "-Dfile.encoding=UTF-8 -Dstdout.encoding=UTF-8 -Dsun.stdout.encoding=UTF-8"}
+SITE_QUICK = ["en", "fr"]          # + one more chosen by the seed, + one with added namespaces
+DEV_OF_EXC = {"ValueError": "IntegerStringConversionLimit", "KeyError": "TalkNamespaceLookup", "IndexError": "Rel2absNeedsArgument",
+              "OverflowError": "PadCountUnbounded", "ZeroDivisionError": "PadEmptyPaddingDivides"}
+
+
+def deviation_of(case):
+    if case["name"] == "#invoke" and case["asis"]["via"] == "IndexError":
+        return "InvokeNeedsModuleName"
+    return DEV_OF_EXC.get(case["asis"]["via"], case["asis"]["via"])
 
 
 def soup_text(toks):
@@ -126,15 +150,288 @@ def explain_expr(viol):
     return set(range(len(viol))) - notok
 
 
+
+# --------------------------------------------------------------------------
+# the language configuration as a dimension (Gen_ParserFns_sites)
+# --------------------------------------------------------------------------
+
+def languages():
+    common.use_repo()
+    import wikitextprocessor
+
+    d = Path(wikitextprocessor.__file__).parent / "data"
+    return sorted(p.name for p in d.iterdir() if (p / "namespaces.json").is_file())
+
+
+ADDED_NS = {
+    # attested in a shipped table (Flow's Topic, id 2600, of the French table): a subject namespace without talk namespace
+    "Topic": {"id": 2600, "name": "Topic", "subpages": False, "content": False, "aliases": [], "issubject": True, "istalk": False},
+    # a local name with blanks and an alias, again without talk namespace
+    "Gadget definition": {"id": 2302, "name": "Gadget definition", "subpages": False, "content": False, "aliases": ["GD"], "issubject": True,
+                          "istalk": False},
+    # not attested: a talk namespace whose subject is missing (escapes on it are reported as drift)
+    "Orphan talk": {"id": 3001, "name": "Orphan talk", "subpages": False, "content": False, "aliases": [], "issubject": False, "istalk": True},
+}
+
+
+def _tables(langs):
+    """The namespace table the context of the working tree holds for each language."""
+    common.use_repo()
+    out = []
+    for lang in langs:
+        with pfcommon.Ctx(lang_code=lang) as c:
+            out.append(json.loads(json.dumps(c.wtp.NAMESPACE_DATA)))
+    return out
+
+
+def site_of(lang, table, syn=False, wide=True):
+    return {"lang": lang, "syn": syn, "wide": wide, "table": table,
+            "ns": [{"key": k, "id": v["id"], "name": v["name"], "aliases": list(v.get("aliases", [])), "istalk": bool(v.get("istalk", False)),
+                    "lower": k.lower()} for k, v in table.items()]}
+
+
+def site_plan(tier):
+    langs = languages()
+    rng = random.Random(common.seed() * 7919 + 505)
+    main = [l for l in SITE_QUICK if l in langs]
+    rest = [l for l in langs if l not in main]
+    if rest:
+        main.append(rng.choice(rest))
+    wanted = main if tier != "thorough" else main + [l for l in langs if l not in main]
+    tables = dict(zip(wanted, pmap(_tables, wanted)))
+    sites = [site_of(l, tables[l]) for l in main]
+    # a shipped table with namespaces of the irregular kinds added (the base: the language chosen by the seed)
+    base = main[-1]
+    ids = {v["id"] for v in tables[base].values()}
+    added = {k: v for k, v in ADDED_NS.items() if k not in tables[base] and not ({v["id"], v["id"] + (-1 if v["istalk"] else 1)} & ids)}
+    if added:
+        sites.append(site_of(base, {**tables[base], **added}, syn=True))
+    groups = {}
+    for l in wanted:
+        if l not in main:
+            groups.setdefault(json.dumps(tables[l], sort_keys=True), []).append(l)
+    same = {}
+    for ls in groups.values():          # identical tables are run once
+        sites.append(site_of(ls[0], tables[ls[0]], wide=False))
+        if len(ls) > 1:
+            same[ls[0]] = ls[1:]
+    return sites, same
+
+
+def _norm_prefix(out, prefixes):
+    low = out
+    for p_ in prefixes:
+        for v in (p_, p_.lower(), p_.upper(), p_.replace(" ", "_"), p_.replace(" ", "%20")):
+            low = low.replace(v, "@")
+    return low
+
+
+def probe_ns_dependent(names):
+    """Names of the working tree whose output treats a namespace prefix of the table differently from an
+    unknown prefix (as page title or as first argument).  Widens NsFns of the model; no verdict."""
+    found = set()
+    stub_network()
+    for lang in SITE_QUICK:
+        try:
+            c = pfcommon.Ctx(lang_code=lang)
+        except Exception:  # noqa: BLE001
+            continue
+        with c:
+            keys = [k for k in ("Talk", "Template", "Special", "Project") if k in c.wtp.NAMESPACE_DATA]
+            prefixes = ["Xyzzy", "Qwert"] + keys + [c.wtp.NAMESPACE_DATA[k]["name"] for k in keys]
+            obs = {}
+            for pfx in ["Xyzzy", "Qwert"] + keys:
+                c.title = pfx + ":Abc/def"
+                c.wtp.start_page(c.title)
+                for n in names:
+                    obs[(n, "title", pfx)] = _norm_prefix("|".join(c.run("{{" + n + "}}")), prefixes)
+            c.title = "Abc/def"
+            c.wtp.start_page(c.title)
+            for pfx in ["Xyzzy", "Qwert"] + keys:
+                for n in names:
+                    obs[(n, "arg", pfx)] = _norm_prefix("|".join(c.run("{{" + n + ":" + pfx + ":Abc/def}}")), prefixes)
+            for n in names:
+                if n == "#invoke":
+                    continue
+                for pos in ("title", "arg"):
+                    if obs[(n, pos, "Qwert")] != obs[(n, pos, "Xyzzy")]:
+                        continue      # differs between two unknown prefixes already (length, clock): no evidence
+                    if any(obs[(n, pos, k)] != obs[(n, pos, "Xyzzy")] for k in keys):
+                        found.add(n)
+    return sorted(found)
+
+
+class BgTLC(threading.Thread):
+    """One TLC run beside the rest of part (b)."""
+
+    def __init__(self, module, cfg, part=None, **kw):
+        super().__init__(daemon=True)
+        self.module, self.cfg, self.part, self.kw = module, cfg, part, kw
+        self.res = self.err = None
+
+    def run(self):
+        try:
+            self.res = tlc(self.module, self.cfg, **self.kw)
+        except BaseException as e:  # noqa: BLE001  (re-raised by the main thread)
+            self.err = e
+
+    def result(self):
+        self.join()
+        if self.err is not None:
+            raise self.err
+        return self.res
+
+
+def site_call_text(case):
+    return "{{" + case["name"] + (":" + case["arg"] if case["hasarg"] else "") + "}}"
+
+
+def _eval_site_calls(jobs):
+    """jobs: list of (site, [cases]); the cases of a job are sorted by page title"""
+    import os
+
+    init_map = stub_network()
+    out = []
+    for site, cases in jobs:
+        res = []
+        with pfcommon.Ctx(lang_code=site["lang"]) as c:
+            if site["syn"]:       # the table with the added namespaces, installed the way the context reads its own
+                folder = c.dir / "data"
+                folder.mkdir()
+                (folder / "namespaces.json").write_text(json.dumps(site["table"]), encoding="utf-8")
+                c.wtp.data_folder = folder
+                c.wtp.init_namespace_data()
+            init_map(c.wtp)
+            for case in cases:
+                if case["title"] != c.title:
+                    c.title = case["title"]
+                    c.wtp.start_page(c.title)
+                k, o_ = c.run(site_call_text(case))
+                res.append((k, o_[:200]))
+                if len(c.wtp.errors) > 200:
+                    c.wtp.start_page(c.title)
+        out.append(res)
+    return out
+
+
+def judge_sites(o: Outcome, sites, same, r):
+    cases = r.cases
+    if len(cases) < 1000:
+        raise common.TLCError("Gen_ParserFns_sites: too few cases")
+    by = {}
+    for c in cases:
+        by.setdefault(c["site"], []).append(c)
+    jobs = []
+    for si, cs in sorted(by.items()):
+        cs.sort(key=lambda c: c["title"])
+        site = sites[si - 1]
+        step = 1500
+        for i in range(0, len(cs), step):
+            jobs.append((site, cs[i:i + step]))
+    res = pmap(_eval_site_calls, jobs, chunk=1)
+    vdrift = Counter()
+    vsamples = 0
+    excs_unattested = Counter()
+    structural = set()
+    for (site, cs), rs in zip(jobs, res):
+        for c, (k, txt) in zip(cs, rs):
+            o.evaluations += 1
+            o.shape(("site-call", c["name"], site["lang"], site["syn"], c["j"], c["form"], c["pos"]))
+            if c["structural"]:
+                structural.add((site["lang"], site["syn"], c["key"]))
+            wt = site_call_text(c)
+            where = (f"a context configured for language {site['lang']!r}" + (" with added namespaces" if site["syn"] else "")
+                     + (f" (and the {len(same[site['lang']])} languages with the same table)" if site["lang"] in same and not site["syn"] else ""))
+            what = (f"namespace {c['key']!r} (id {c['id']}" + ("; " + "; ".join(sorted(c["facts"])) if c["facts"] else "") + f") spelled as {c['form']}"
+                    if c["j"] else ("no namespace prefix" if c["form"] == "bare" else "a prefix that is not in the namespace table"))
+            if k == "exc":
+                rec = {"kind": "b-site-call", "name": c["name"], "lang": site["lang"], "added_namespaces": site["syn"], "namespace": c["key"],
+                       "namespace_id": c["id"], "form": c["form"], "position": c["pos"], "title": c["title"], "wikitext": wt, "observed": txt}
+                why = (f"{wt} on page {c['title']!r} in {where} raised {txt}: the call depends on the namespace table - {what}, "
+                       f"used as {'the page title' if c['pos'] == 'title' else 'the first argument'} (specification: every parser function answers in-band "
+                       "whatever the table holds around the namespace)")
+                cls = f"b-site-{c['name']}-{txt.split(':')[0]}"
+                if not c["attested"]:
+                    excs_unattested[c["name"] + ": " + txt.split(":")[0]] += 1
+                    o.note_drift({"call": wt, "title": c["title"], "lang": site["lang"], "raised": txt,
+                                  "note": "a namespace kind that no shipped table has (talk namespace without subject)"})
+                elif c["asis"]["kind"] == "exc":
+                    o.classify(rec, why, [deviation_of(c)], cls=cls)
+                else:
+                    o.violation(rec, why, cls=cls)
+            elif c["val"]["k"] == "text" and txt != c["val"]["txt"][:200]:
+                vdrift[f"{c['name']} / {c['form']} / {c['pos']}"] += 1
+                if vsamples < 40:
+                    vsamples += 1
+                    o.note_drift({"call": wt, "title": c["title"], "lang": site["lang"], "documented": c["val"]["txt"], "code": txt[:80]})
+    o.extra.setdefault("site_tables", []).append({
+        "languages": [s_["lang"] + ("+added" if s_["syn"] else "") for s_ in sites if s_["wide"]] + ([f"... and {sum(1 for s_ in sites if not s_['wide'])} distinct other tables"] if any(not s_["wide"] for s_ in sites) else []),
+        "identical_tables_run_once": {k: len(v) for k, v in same.items()},
+        "cases": len(cases),
+        "namespaces_with_irregular_structure": len(structural),
+        "irregular": sorted(f"{l}{'+' if sy else ''}:{k}" for l, sy, k in structural)[:60],
+        "value_differs_from_documented": dict(vdrift.most_common(40)),
+        "exceptions_on_unattested_namespace_kinds": dict(excs_unattested),
+    })
+    c = cases[len(cases) // 2]
+    o.sample({"call": site_call_text(c), "title": c["title"], "lang": c["lang"], "predicted": c["exp"], "documented_value": c["val"]})
+
+
 def run_b(o: Outcome, tier: str) -> None:
+    with Scratch("c05n-") as nd:
+        _run_b(o, tier, nd)
+
+
+def known_names(o: Outcome):
+    common.use_repo()
+    try:
+        from wikitextprocessor.parserfns import PARSER_FUNCTIONS
+
+        return sorted(k for k in PARSER_FUNCTIONS if k not in SKIP)
+    except ImportError:      # the table moved: fall back to a fixed list, and say so
+        o.note_drift({"note": "PARSER_FUNCTIONS not importable from wikitextprocessor.parserfns; a fixed list of names is used"})
+        return sorted(["#expr", "#ifexpr", "#if", "#switch", "#time", "#titleparts", "#rel2abs", "#pad", "padleft", "padright",
+                       "TALKPAGENAME", "TALKSPACE", "PAGENAME", "formatnum", "plural", "lc", "#len", "#sub", "ns", "fullurl"])
+
+
+def _run_b(o: Outcome, tier: str, nd: Path) -> None:
+    import time
+
     thorough = tier == "thorough"
+    t0 = time.time()
+    stages = o.extra.setdefault("part_b_stage_seconds", {})
+
+    def stage(name):
+        stages[name] = round(time.time() - t0, 1)
+    # ---------------- the language configurations: tables of the working tree -> TLC (runs beside the rest)
+    known = known_names(o)
+    sites, same = site_plan(tier)
+    nsfns = probe_ns_dependent(known)
+    wide = [s_ for s_ in sites if s_["wide"]]
+    light = [s_ for s_ in sites if not s_["wide"]]
+    nparts = 6
+    parts = [wide] + [light[i::nparts] for i in range(nparts) if light[i::nparts]]
+    site_runs = []
+    for i, part in enumerate(parts):
+        nf = nd / f"names{i}.json"
+        nf.write_text(json.dumps({"known": known, "names": known + UNKNOWN_NAMES, "nsfns": nsfns,
+                                  "sites": [{k: v for k, v in s_.items() if k != "table"} for s_ in part]}), encoding="utf-8")
+        t = BgTLC("Gen_ParserFns", "Gen_ParserFns_sites.cfg", part=part, workers=1, timeout=3000, env={"NAMES_FILE": str(nf), **TLC_UTF8})
+        t.start()
+        site_runs.append(t)
+    mc_sites = BgTLC("MC_ParserFns", "MC_ParserFns_sites.cfg", workers=2, timeout=3000, coverage=True)
+    mc_sites.start()
+    demo_sites = BgTLC("MC_ParserFns", "Demo_ParserFns_sites_asis.cfg", workers=2, check=False)
+    demo_sites.start()
+    stage("site tables read, probe done, site generator started")
     o.rule = (o.rule + " | " if o.rule else "") + (
         "(b) every #expr token sequence up to the bound over the token alphabet is one case (distinct by token sequence; "
         "non-trivial when the model does not predict a plain syntax error); every (parser function name, argument vector, "
-        "page-title class) is one case (distinct by name x vector x title)."
+        "page-title class) is one case (distinct by name x vector x title); every (name, language configuration, namespace of its "
+        "table, spelling, position) is one case."
     )
     o.assumptions += [
-        "(b) #invoke is not exercised here (Lua sandbox, C06-C09); the network helpers wikidata.query_wikidata and "
+        "(b) #invoke is exercised only with fewer than two arguments (with more it enters the Lua sandbox: C06-C09); the network helpers wikidata.query_wikidata and "
         "interwiki.get_interwiki_data are stubbed to an empty result in the harness process",
         "(b) a MemoryError/RecursionError-free run is assumed; only exceptions escaping Wtp.expand() are counted",
     ]
@@ -152,7 +449,15 @@ def run_b(o: Outcome, tier: str) -> None:
     o.extra["demo_dispatch_asis_reaches_exception"] = bool(r.invariant_violated)
     if not r.invariant_violated:
         raise common.TLCError("Demo_ParserFns_asis no longer reaches an escaping exception (vacuity guard)")
+    r = mc_sites.result()
+    o.add_tlc("MC_ParserFns_sites(every call in-band on every table; talk/subject partner well defined)", r)
+    o.extra.setdefault("action_coverage", {}).update({"ParserFns:" + k: v[1] for k, v in r.coverage_actions().items()})
+    r = demo_sites.result()
+    o.extra["demo_dispatch_sites_asis_reaches_exception"] = bool(r.invariant_violated)
+    if not r.invariant_violated:
+        raise common.TLCError("Demo_ParserFns_sites_asis no longer reaches an escaping exception (vacuity guard)")
 
+    stage("M done")
     # ---------------- G: #expr token soups
     r = tlc("Gen_Expr", "Gen_Expr_soup_T.cfg" if thorough else "Gen_Expr_soup_Q.cfg", workers=16, timeout=3000)
     o.add_tlc("Gen_Expr_soup", r)
@@ -201,19 +506,9 @@ def run_b(o: Outcome, tier: str) -> None:
         else:
             o.violation(rec, why + " (the as-is model does not predict this one)", cls=cls)
 
+    stage("#expr done")
     # ---------------- G: every parser function x argument vectors x titles
-    common.use_repo()
-    try:
-        from wikitextprocessor.parserfns import PARSER_FUNCTIONS
-
-        known = sorted(k for k in PARSER_FUNCTIONS if k not in SKIP)
-    except ImportError:      # the table moved: fall back to a fixed list, and say so
-        known = sorted(["#expr", "#ifexpr", "#if", "#switch", "#time", "#titleparts", "#rel2abs", "#pad", "padleft", "padright",
-                        "TALKPAGENAME", "TALKSPACE", "PAGENAME", "formatnum", "plural", "lc", "#len", "#sub", "ns", "fullurl"])
-        o.note_drift({"note": "PARSER_FUNCTIONS not importable from wikitextprocessor.parserfns; a fixed list of names is used"})
-    with Scratch("c05n-") as d:
-        (d / "names.json").write_text(json.dumps({"known": known, "names": known + UNKNOWN_NAMES}))
-        r = tlc("Gen_ParserFns", "Gen_ParserFns.cfg", workers=8, timeout=3000, env={"NAMES_FILE": str(d / "names.json")})
+    r = tlc("Gen_ParserFns", "Gen_ParserFns.cfg", workers=8, timeout=3000, env={"NAMES_FILE": str(nd / "names0.json"), **TLC_UTF8})
     o.add_tlc("Gen_ParserFns", r)
     pcases = r.cases
     if len(pcases) < len(known) * 50:
@@ -239,9 +534,7 @@ def run_b(o: Outcome, tier: str) -> None:
                        "observed": txt}
                 why = f"{wt} on page {TITLE_TEXT[title]!r} raised {txt}"
                 if c["asis"]["kind"] == "exc" and (c["asis"]["via"] != "ValueError" or "4300 digits" in txt):
-                    dev = {"ValueError": "IntegerStringConversionLimit","KeyError": "TalkNamespaceLookup", "IndexError": "Rel2absNeedsArgument",
-                           "OverflowError": "PadCountUnbounded", "ZeroDivisionError": "PadEmptyPaddingDivides"}.get(c["asis"]["via"], c["asis"]["via"])
-                    o.classify(rec, why, [dev], cls=f"b-call-{c['name']}-{txt.split(':')[0]}")
+                    o.classify(rec, why, [deviation_of(c)], cls=f"b-call-{c['name']}-{txt.split(':')[0]}")
                 else:
                     o.violation(rec, why + " (not predicted by the as-is model)", cls=f"b-call-{c['name']}-{txt.split(':')[0]}")
             elif c["asis"]["kind"] == "exc":
@@ -261,6 +554,14 @@ def run_b(o: Outcome, tier: str) -> None:
                 else:
                     o.violation(rec, why, cls="b-argname")
     o.extra["dispatch_notes"] = dict(pdrift)
+    stage("calls done")
+    # ---------------- G: name x namespace of the table x spelling x position, per language configuration
+    o.extra["ns_dependent_names"] = {"probe_of_the_working_tree": nsfns}
+    for i, t in enumerate(site_runs):
+        r = t.result()
+        o.add_tlc("Gen_ParserFns_sites" + (f"[{i}]" if len(site_runs) > 1 else ""), r)
+        judge_sites(o, t.part, same, r)
+    stage("sites done")
     c = pcases[len(pcases) // 2]
     o.sample({"call": call_text(c["name"], c["argv"]), "title": TITLE_TEXT[c["title"]], "predicted": c["exp"]})
 
